@@ -440,6 +440,7 @@ class Correspondence(object):
         self.cache = {}
         self.nseg = 0
         self.nmis = 0
+        self.nhold = 0
         self.strict = variant == 'Fixed'
 
     def ask(self, line):
@@ -547,9 +548,34 @@ class Correspondence(object):
             point = act.split()[-1]
         return self.mismatch(case, rec, 'walk does not end')
 
+    CONDS = {'RAW': {'send_ready', 'recv_ready'}, 'LDL': {'send_ready', 'recv_ready'},
+             'DLC': {'send_ready', 'recv_ready', 'acks_ready', 'send_token'}, 'SDP': {'resp'}}
+
+    def holds_ok(self, case, rec):
+        """what WaitCheck guarantees of the skeleton (Skel/WaitSyntax.hold_ok), observed on the real holds:
+        a hold that ends in wait(c) leaves the object open and c is one of its conditions; a hold under the
+        object's own lock that closes the object notifies all its conditions"""
+        for sg in rec['segs']:
+            kind = sg['pre'][0]
+            own = (sg['lock'] == 'sock') or kind == 'SDP'
+            if not own:
+                continue
+            self.nhold += 1
+            bad = None
+            if sg['end'][0] == 'wait' and (sg['post'][1] == 'SHUTDOWN' or sg['end'][1] not in self.CONDS[kind]):
+                bad = 'wait on a closed object'
+            if sg['pre'][1] != 'SHUTDOWN' and sg['post'][1] == 'SHUTDOWN' and not self.CONDS[kind] <= set(sg['nall']):
+                bad = 'closed without notifying all conditions'
+            if bad:
+                self.nmis += 1
+                self.ck.count('hold-not-ok:' + rec['api'].split(':')[-1])
+                if self.strict:
+                    self.ck.correspondence_mismatch('hold_ok', {'api': rec['api'], 'why': bad, 'hold': (sg['pre'], sg['post'], sg['end'], sg['nall'])})
+
     def check_run(self, case, out):
         for rec in out.get('records', []):
             self.walk(case, rec)
+            self.holds_ok(case, rec)
         for sg in out.get('link_segs', []):
             kind, st, b, i, rq, sq, rb, sb, sl, ak = sg['pre']
             line = 'close %s %s %d %d 1 %s %d %d %d %d %d' % (kind, st, b, i, rq, sq, rb, sb, sl, ak)
@@ -708,7 +734,9 @@ def main():
     quick = ck.tier == 'quick'
     if ck.replay:
         return replay(ck)
-    ck.trusted = ['Coq 8.16.1 kernel', 'harness/sim/sched.py (cooperative scheduler) and harness/sim/llcpeer.py (scripted peer)',
+    ck.trusted = ['Coq 8.16.1 kernel (vm_compute for witnesses and for running WaitCheck on the skeleton)',
+                  'translate/skel_c09.py (fail-closed ast extractor of the wait/notify skeleton; its whitelists)',
+                  'harness/sim/sched.py (cooperative scheduler) and harness/sim/llcpeer.py (scripted peer)',
                   'extraction: ExtrOcamlBasic only; extract/c09_run.ml driver']
     ck.assumptions = ['liveness is proved as a safety invariant (blocked => not shut down, or notification pending) plus: '
                       'CPython schedules every runnable thread eventually and Condition.wait has no lost wake-ups',
@@ -716,7 +744,7 @@ def main():
     coq_ok = True
     import os
     if os.path.exists(os.path.join(os.path.dirname(__file__), '..', '..', 'coq', 'Props', 'C09.v')):
-        coq_ok = ck.coq(gen=[], targets=['Proofs/LlcLife.vo'], props='C09')
+        coq_ok = ck.coq(gen=['TcoSkel'], targets=['Proofs/LlcLife.vo', 'Bridge/C09Skel.vo'], props=['C09', 'C09Skel'])
     del coq_ok
     global CORR
     mr = ck.model()
@@ -730,9 +758,9 @@ def main():
     causes = L.CAUSES
     total = 0
     found = set()
-    per_case_budget = 60 if quick else 110
-    depth2 = 12 if quick else 50
-    nrandom = 3 if quick else 10
+    per_case_budget = 60 if quick else 220
+    depth2 = 12 if quick else 110
+    nrandom = 3 if quick else 20
     plan = []
     for name, sc in SCENARIOS.items():
         ends = sc.get('ends', DEFAULT_ENDS)
@@ -767,6 +795,7 @@ def main():
     if CORR is not None:
         ck.cov['segments_validated_against_model'] = CORR.nseg - CORR.nmis
         ck.cov['segment_mismatches'] = CORR.nmis
+        ck.cov['holds_checked_against_hold_ok'] = CORR.nhold
         ck.cov['model_variant'] = CORR.variant
     ck.finish(level='proof',
               rule='scenario (blocking call) x cause of link end x exchange index of the end x role x schedule; schedules: default '
@@ -788,8 +817,17 @@ def replay(ck):
         bad = monitor(ck, case, out)
         print('REPRODUCED' if bad else 'not reproduced')
         sys.exit(1 if bad else 0)
-    print('replay file has no schedule; rerun ./check C09')
-    sys.exit(2)
+    key = data.get('key', '')
+    if key.startswith('connect-'):
+        connect_returns(ck)
+    elif key.startswith('hang-device-broken'):
+        device_still_broken(ck)
+    else:
+        print('replay file has no schedule; rerun ./check C09')
+        sys.exit(2)
+    hit = [k for k, _w, _d in ck.violations if k == key]
+    print('REPRODUCED' if hit else 'not reproduced')
+    sys.exit(1 if hit else 0)
 
 
 if __name__ == '__main__':
